@@ -148,6 +148,11 @@ type Uint64MapBuilder struct {
 }
 
 func NewUint64MapBuilder(bucketBits int, tagBits int) *Uint64MapBuilder {
+	if bucketBits < tagBits {
+		// Bucket headers store (id >> bucketBits) << tagBits in 64 bits, which
+		// would otherwise drop the top bits of the id.
+		bucketBits = tagBits
+	}
 	return &Uint64MapBuilder{
 		Layout: Uint64MapLayout{
 			BucketBits: bucketBits,
